@@ -44,7 +44,7 @@ def drive(exe, lines, timeout=1500, max_aborts=5):
     return outs, aborts
 
 
-def conf_batched(ctx, module, cfg, recs, label, bsize=48, big=1500, size=lambda r: len(r.get('e', r.get('hdr', [])))):
+def conf_batched(ctx, module, cfg, recs, label, bsize=48, big=1500, size=lambda r: 2000 if r['op'] == 'rtall' else len(r.get('e', r.get('hdr', [])))):
     """Function conformance with several cases per TLC state ({"b": [...]}); rejected batches are re-evaluated case by case."""
     batches, cur = [], []
     for k, r in enumerate(recs):
@@ -119,10 +119,11 @@ def gen(ctx):
         # (i) complete: every byte string of length <= 2 (quick tier: complete through squid's own source, where a code change
         # lands; the linked library gets all 1-byte strings and the 2-byte strings over 64 boundary bytes; thorough: both complete)
         full = ctx.thorough or impl == 'o'
-        dom2 = range(256) if full else sorted(set(REP3) | set(range(0, 256, 5)))
-        for n in range(0, 3):
-            for t in itertools.product(range(256) if n < 2 else dom2, repeat=n):
-                add('rt %s %s -1 -1' % (impl, hx(bytes(t))))
+        dom2 = range(256) if full else sorted(set(REP3) | set(range(0, 256, 5)))     # first bytes whose 256 two-byte strings are evaluated
+        add('rt %s - -1 -1' % impl)
+        add('rtall %s -' % impl)                                   # all 256 one-byte strings
+        for a in dom2:                                             # two-byte strings a.b for every b
+            add('rtall %s %02x' % (impl, a))
         # representative 3-byte set + random 3-byte strings
         for t in itertools.product(REP3, repeat=3):
             add('rt %s %s -1 -1' % (impl, hx(bytes(t))))
@@ -196,6 +197,8 @@ def valid_b64(e):
 
 
 def classify(o):
+    if o['op'] == 'rtall':
+        return {'op': 'rt', 'impl': o['impl'], 'kind': 'encoding-wrong-or-round-trip-broken'}
     if o['op'] == 'rt':
         return {'op': 'rt', 'impl': o['impl'], 'kind': 'encoding-wrong' if bytes(o['e']) != base64.b64encode(bytes(o['s'])) or not o.get('raweq', True) else 'round-trip-broken'}
     txt = bytes(o['e'] if o['op'] == 'dec' else o['hdr'])
@@ -243,7 +246,8 @@ def run(ctx):
         recs.append(o)
         src.append(k)
     prej, irej = conf_batched(ctx, os.path.join(SPEC, 'Conf_Base64.tla'), os.path.join(SPEC, 'Conf_Base64.cfg'), recs, 'base64')
-    ctx.log('TLC evaluated %d cases: P-rejected %d, I-rejected %d, aborted %d' % (len(recs), len(prej), len(irej), len(aborts)))
+    ctx.log('TLC evaluated %d records (%d cases): P-rejected %d, I-rejected %d, aborted %d' % (
+        len(recs), len(recs) + 255 * sum(1 for o in recs if o['op'] == 'rtall'), len(prej), len(irej), len(aborts)))
     reported = set()
     for i in prej:
         o = recs[i]
@@ -252,7 +256,13 @@ def run(ctx):
         if key in reported or len(ctx.violations) >= 5:
             continue
         reported.add(key)
-        if o['op'] == 'rt':
+        if o['op'] == 'rtall':
+            badb = [b for b in range(256) if bytes(o['es'][b]) != base64.b64encode(bytes(o['pre'] + [b])) or not o['acc'][b] or o['outs'][b] != o['pre'] + [b]]
+            b = badb[0] if badb else 0
+            what = 'base64 (%s) of %r gave %r, decoded back as ok=%s %r (%d of the 256 strings with this prefix are wrong; one-shot encoder agrees: %s; sizes within the promise: %s)' % (
+                o['impl'], bytes(o['pre'] + [b]), bytes(o['es'][b]), o['acc'][b], bytes(o['outs'][b]), len(badb), o['raweq'], o['promise'])
+            o = {'op': 'rtall', 'impl': o['impl'], 'pre': o['pre'], 'first_bad_byte': b, 'e': o['es'][b], 'out': o['outs'][b], 'acc': o['acc'][b], 'raweq': o['raweq'], 'promise': o['promise']}
+        elif o['op'] == 'rt':
             what = 'base64 (%s) of %r gave %r%s, decoded back as ok=%s %r' % (o['impl'], bytes(o['s'])[:40], bytes(o['e'])[:60],
                                                                              '' if o.get('raweq', True) else ' (base64_encode_raw gave another text)', o['upd'] and o['fin'], bytes(o['out'])[:40])
         elif o['op'] == 'dec':
@@ -266,16 +276,20 @@ def run(ctx):
         if i not in prej and len(ctx.drift) < 5:
             ctx.drift.append('I-layer (decoding automaton / lower-casing) mismatch on %s' % lines[src[i]][:160])
     by = {}
+    nall = sum(1 for o in recs if o['op'] == 'rtall')
+    for k in ('impl_traces', 'tlc_checked_cases'):
+        ctx.cov[k] += 255 * nall                 # an rtall record holds 256 evaluated strings
     for o in recs:
-        key = o['op'] + ('-' + o['impl'] if 'impl' in o else '')
-        by[key] = by.get(key, 0) + 1
+        key = ('rt' if o['op'] == 'rtall' else o['op']) + ('-' + o['impl'] if 'impl' in o else '')
+        by[key] = by.get(key, 0) + (256 if o['op'] == 'rtall' else 1)
     ctx.cov['by_operation'] = by
     ctx.cov['complete_le2_bytes_sets'] = {'own': 65793, 'used': 65793 if ctx.thorough else 0}
-    ctx.cov['impl_distinct'] = len(recs) - sum(1 for o in recs if o['op'] == 'rt' and len(o['s']) == 0)
+    ctx.cov['records_holding_256_strings'] = sum(1 for o in recs if o['op'] == 'rtall')
+    ctx.cov['impl_distinct'] = len(recs) + 255 * nall - sum(1 for o in recs if o['op'] == 'rt' and len(o['s']) == 0)
     ctx.cov['rejected_by_impl'] = sum(1 for o in recs if o['op'] == 'dec' and not (o['upd'] and o['fin'])) + sum(1 for o in recs if o['op'] == 'basic' and not o['decoded'])
     ctx.cov['longest_input'] = max([len(o.get('s', o.get('e', o.get('hdr', [])))) for o in recs] or [0])
     ctx.cov['aborted_cases'] = len(aborts)
-    for o in [l[min(k, len(l) - 1)] for l, k in ((recs, 300), ([r for r in recs if r['op'] == 'dec'], 1234), ([r for r in recs if r['op'] == 'basic'], 77)) if l]:
+    for o in [l[min(k, len(l) - 1)] for l, k in (([r for r in recs if r['op'] == 'rt'], 300), ([r for r in recs if r['op'] == 'dec'], 1234), ([r for r in recs if r['op'] == 'basic'], 77)) if l]:
         ctx.sample({k: (repr(bytes(v)[:60]) if isinstance(v, list) else v) for k, v in o.items()})
     ctx.cov['rule'] = ('tlc_checked_cases: for each of the two implementations ("used" = the base64_* functions the build links, here libnettle; "own" = '
                        'lib/base64.cc compiled from the working tree) every byte string of length <= 2 (complete), all 3-byte strings over 16 boundary bytes, '
